@@ -227,6 +227,12 @@ _ADD = {
          ' Every raw allocation is sized with an element at least as large as the pointee in both index widths; R11 index kinds / local allocation extents; a guard '
          'variable whose address was passed to a callee no longer correlates an allocation with its release.'),
 }
+_RC = (' R9c: wherever the exact sibling rule runs, the integer skeletons (subscripts, positions, loop bounds, integer tests, call operands; floating '
+       'statements reduced to their indexed accesses) of the d and z instantiations must agree as well, so a change made to the real pair only (or the '
+       'complex pair only) is seen.')
+for _k in CLAIMS:
+    if 'R9' in CLAIMS[_k]['technique'] or 'sibling' in CLAIMS[_k]['technique']:
+        CLAIMS[_k]['text'] += _RC
 for _k, (_t, _x) in _ADD.items():
     CLAIMS[_k]['technique'] += _t
     CLAIMS[_k]['text'] += _x
